@@ -44,5 +44,14 @@ def newInternalConfig (ext : Ext) (cfg : Option Config) : Option ICfg × Option 
     | .ok i => (some i, none)
     | .error e => (none, some e)
 
+/-- `uint8(x)` for an `int` x: the low eight bits. -/
+def uint8 (x : Int) : Nat := (x % 256).toNat
+
+/-- `strconv.Itoa`. -/
+def itoa (x : Int) : Bytes := if x < 0 then 45 :: Bytes.itoa (-x).toNat else Bytes.itoa x.toNat
+
+/-- A non-negative constant used where the model has a `Nat` (bounds and defaults of the error values). -/
+def nat (x : Int) : Nat := x.toNat
+
 end GoRt
 end Cors
